@@ -970,7 +970,13 @@ func (vc *VC) isErrTerm(err, target Term) Term {
 
 func (vc *VC) asErrTerm(t types.Type, err Term) Term {
 	name := "asErr_" + symKey(t)
-	vc.sc.DeclFun(name, []string{"Val"}, vc.sortOf(t))
-	vc.sc.Axiom(Eq(sx(name, "nilval"), vc.zeroOf(t)))
+	if !vc.sc.declSet[name] {
+		vc.sc.DeclFun(name, []string{"Val"}, vc.sortOf(t))
+		vc.sc.Axiom(Eq(sx(name, "nilval"), vc.zeroOf(t)))
+		// errors.As looks at the error itself first: a value of dynamic type T is its own match
+		if vc.sortOf(t) != "Val" {
+			vc.sc.Axiom(fmt.Sprintf("(forall ((?ev Val)) (! (=> (and (not (= ?ev nilval)) (= (typeOf ?ev) %s)) (= (%s ?ev) (%s ?ev))) :pattern ((%s ?ev))))", vc.tyID(t), name, vc.unboxFn(t), name))
+		}
+	}
 	return sx(name, err)
 }
